@@ -173,6 +173,15 @@ def run_unit_shard(work, binpath, unit, tier, seed, shard, replay_fail=None, ext
     timeout = unit.get("timeout", {}).get(tier, 600 if tier == "quick" else 3600)
     cmd = [binpath, "-test.run", "^(" + unit["run"] + ")$", "-test.count=1",
            "-test.timeout=%ds" % (timeout + 60)]
+    if unit.get("kind") == "fuzz":
+        # native coverage-guided fuzzing (thorough tier only); a replay runs the saved input as a seed
+        if replay_fail or (extra_env and extra_env.get("VERIF_REPLAY_FUZZ")):
+            cmd = [binpath, "-test.run", "^(" + unit["run"] + ")$", "-test.count=1"]
+        else:
+            cmd = [binpath, "-test.run", "^$", "-test.fuzz", "^" + unit["run"] + "$",
+                   "-test.fuzztime", "%ds" % unit.get("fuzztime", {}).get(tier, 30),
+                   "-test.fuzzcachedir", os.path.join(cwd, "fuzzcache"),
+                   "-test.parallel", str(unit.get("fuzzworkers", 4))]
     if unit.get("kind", "rapid") == "rapid":
         checks = unit.get("checks", {}).get(tier, 100)
         cmd += ["-rapid.checks=%d" % checks, "-rapid.seed=%d" % seed,
@@ -209,10 +218,17 @@ def run_unit_shard(work, binpath, unit, tier, seed, shard, replay_fail=None, ext
         out, _ = p.communicate()
     wall = time.time() - t0
     verdict, detail = classify(p.returncode, out, timed_out)
+    extra_cov = None
+    if unit.get("kind") == "fuzz":
+        ex = re.findall(r"execs: (\d+)", out)
+        ni = re.findall(r"new interesting: (\d+)", out)
+        extra_cov = {"fuzz_execs": int(ex[-1]) if ex else 0, "fuzz_new_interesting": int(ni[-1]) if ni else 0}
+        if verdict == "error" and "FAIL" in out and glob.glob(os.path.join(cwd, "testdata", "fuzz", "*", "*")):
+            verdict, detail = "violation", "fuzz-crasher"
     failfiles = sorted(glob.glob(os.path.join(cwd, "testdata", "rapid", "*", "*.fail")))
     return {"unit": name, "shard": shard, "seed": seed, "rc": p.returncode, "verdict": verdict,
             "detail": detail, "out": out, "wall": wall, "stats_dir": stats, "failfiles": failfiles,
-            "cmd": cmd, "cwd": cwd}
+            "cmd": cmd, "cwd": cwd, "coverage_extra": extra_cov}
 
 
 def merge_stats(results):
@@ -454,6 +470,12 @@ def build_evidence(pid, tier, seed, spec, per_test, results, nviol, wall, lines)
     for r in results:
         if r.get("coverage_extra"):
             units.setdefault(r["unit"], {}).update(r["coverage_extra"])
+            evals += int(r["coverage_extra"].get("fuzz_execs", 0)) + int(r["coverage_extra"].get("extra_evaluations", 0))
+            distinct += int(r["coverage_extra"].get("extra_distinct_nontrivial", 0))
+            for smp in r["coverage_extra"].get("samples", [])[:2]:
+                samples.append({"test": r["unit"], "case": smp})
+            if r["coverage_extra"].get("rule"):
+                rules.append("%s: %s" % (r["unit"], r["coverage_extra"]["rule"]))
     ev = {
         "property_id": pid,
         "tier": tier,
